@@ -467,11 +467,12 @@ Qed.
 
 Lemma inject_hok : forall it c rd nh, Forall h_ok rd -> Forall h_ok (fst (inject it c rd nh)).
 Proof.
-  induction c as [|[n front] c IH]; intros rd nh Hr; cbn [inject]; [exact Hr|].
+  induction c as [|[[n front] act] c IH]; intros rd nh Hr; cbn [inject]; [exact Hr|].
   destruct (n =? it); [|apply IH; assumption].
+  assert (Hn : h_ok (mkH nh (match act with 0 => HExt | S k => HActor k end) false)) by (destruct act; reflexivity).
   apply IH. destruct front.
-  - constructor; [reflexivity|exact Hr].
-  - apply Forall_app; split; [exact Hr|constructor; [reflexivity|constructor]].
+  - constructor; [exact Hn|exact Hr].
+  - apply Forall_app; split; [exact Hr|constructor; [exact Hn|constructor]].
 Qed.
 
 Lemma sfw_begin_iter : forall st, sfw st -> md st = MLoop -> sfw (begin_iter st).
@@ -526,6 +527,8 @@ Proof.
     + eapply sfw_of_krel_loop; [|exact W2]. k3.
     + destruct (task_done _); [exact W2|]. eapply sfw_of_krel_loop; [|exact W2].
       eapply krel_trans; [|apply krel_task_cancel]. unfold note_ext. destruct (in_shield _); k3.
+    + destruct (nth_scope _ k) as [sid|]; [|exact W2]. eapply sfw_of_krel_loop; [|exact W2].
+      eapply krel_trans; [apply krel_scope_cancel|k3].
 Qed.
 
 Lemma sfw_init : forall fx fb p timers turns k, shield_free p = true -> sfw (init fx fb p timers turns k).
